@@ -115,6 +115,31 @@ Definition inode_compact_marshal_v0 (n : inode) : bytes :=
 Definition inode_compact_marshal_v1 (n : inode) : bytes :=
   [PrefixInternalNode] ++ depth_marshal (ilbl n) ++ ilabel n ++ [PrefixNilNode].
 
+(* node.go:516-546: "Hashes are only present in non-compact serialization." *)
+Definition inode_hashes (data : bytes) (lbl : N) (label : bytes) (lf : option leaf) (pos : N)
+  : M (inode * N) :=
+  if pos + HashSize * 2 <=? glen data then
+    lsrc <- lift (slice data pos (pos + HashSize)) ;;
+    leftHash <- wrap W_LEFT (hash_unmarshal lsrc) ;;
+    let pos := pos + HashSize in
+    rsrc <- lift (slice data pos (pos + HashSize)) ;;
+    rightHash <- wrap W_RIGHT (hash_unmarshal rsrc) ;;
+    let pos := pos + HashSize in
+    let left := if hash_is_empty leftHash then None else Some leftHash in
+    let right := if hash_is_empty rightHash then None else Some rightHash in
+    ret (mkInode lbl label lf left right, pos)
+  else
+    ret (mkInode lbl label lf None None, pos).
+
+(* node.go:502-514: the embedded leaf *)
+Definition inode_leaf (data : bytes) (pos : N) : M (option leaf * N) :=
+  b <- lift (index data pos) ;;
+  if b =? PrefixNilNode then ret (None, pos + 1)
+  else
+    rest <- lift (slice_from data pos) ;;
+    '(l, sz) <- wrap W_LEAF (leaf_sized_unmarshal rest) ;;
+    ret (Some l, pos + sz).
+
 (* node.go:475-547.  A fresh receiver is assumed (Left = Right = nil before the
    call), as at every call site (node.UnmarshalBinary, nodedb, proof verifier). *)
 Definition inode_sized_unmarshal (data : bytes) : M (inode * N) :=
@@ -133,25 +158,8 @@ Definition inode_sized_unmarshal (data : bytes) : M (inode * N) :=
   let label := gcopy label0 src in
   let pos := pos + labelLen in
   if glen data <=? pos then fail E_NODE else
-  b <- lift (index data pos) ;;
-  '(lf, pos) <-
-     (if b =? PrefixNilNode then ret (None, pos + 1)
-      else
-        rest <- lift (slice_from data pos) ;;
-        '(l, sz) <- wrap W_LEAF (leaf_sized_unmarshal rest) ;;
-        ret (Some l, pos + sz)) ;;
-  if pos + HashSize * 2 <=? glen data then
-    lsrc <- lift (slice data pos (pos + HashSize)) ;;
-    leftHash <- wrap W_LEFT (hash_unmarshal lsrc) ;;
-    let pos := pos + HashSize in
-    rsrc <- lift (slice data pos (pos + HashSize)) ;;
-    rightHash <- wrap W_RIGHT (hash_unmarshal rsrc) ;;
-    let pos := pos + HashSize in
-    let left := if hash_is_empty leftHash then None else Some leftHash in
-    let right := if hash_is_empty rightHash then None else Some rightHash in
-    ret (mkInode lbl label lf left right, pos)
-  else
-    ret (mkInode lbl label lf None None, pos).
+  '(lf, pos) <- inode_leaf data pos ;;
+  inode_hashes data lbl label lf pos.
 
 (* ---------- node.go:715-740 ---------- *)
 Definition node_unmarshal (data : bytes) : M node :=
